@@ -268,6 +268,17 @@ def check(spec):
             expect("interpolation_reproduces_polynomials", msite + ".eval_basis", abs(val - (d + 1) * p(xi)),
                    1e-9 * (1 + sum(abs(c) for c in poly)) * (d + 1))
 
+    # an element boundary belongs to both neighbours: with the element prescribed explicitly, either side reproduces p
+    for k in range(1, nel):
+        xi = float(corners[k])
+        for el in (k - 1, k):
+            Nb = np.asarray(mesh.eval_basis(xi, el))
+            N0 = Nb[0].reshape(-1)
+            qe = q[mesh.elDOF[el]]
+            val = float(N0 @ qe[mesh.nodalDOF_element[:, 0]])
+            expect("interpolation_reproduces_polynomials", msite + ".eval_basis(xi=boundary, el explicit)", abs(val - p(xi)),
+                   1e-9 * (1 + sum(abs(c) for c in poly)), f"boundary {k}, element {el}")
+
     res.nontrivial = degree >= 2 and not uniform
     res.label(f"degree={degree}", "uniform" if uniform else "nonuniform", ms["basis"], ms["quadrature"])
     res.label(f"nel={'1' if nel == 1 else '2-4' if nel <= 4 else '5-12'}")
